@@ -373,6 +373,22 @@ def r6_json_keys(ctx):
                     if rq in repo.classes:
                         todo.append(rq)
     ctx.floor("C17.R6.dicts", n, 6)
+    # the writers of the job-instance file: a `default=` fallback would silently write values JSON cannot represent
+    import ast as _ast
+    nw = 0
+    for fi in repo.all_funcs():
+        if not fi.module.name.startswith(("cascade.gateway", "cascade.benchmarks")):
+            continue
+        for c in walk_scope(fi.node):
+            if isinstance(c, _ast.Call) and unparse(c.func) == "orjson.dumps" and c.args and "dict()" in unparse(c.args[0]).replace("model_dump()", "dict()"):
+                nw += 1
+                extra = [k.arg for k in c.keywords if k.arg in ("default", "option")]
+                if extra:
+                    ctx.violation("C17.R6", fi.qual, loc(fi, c), "job instance written without a lossy fallback",
+                                  f"{unparse(c)[:90]}: with `{extra[0]}=` a value JSON cannot represent is written in another form instead of being rejected — the job read back differs silently")
+                else:
+                    ctx.ok("C17.R6", loc(fi, c), "job instance JSON writer: values JSON cannot represent are rejected")
+    ctx.floor("C17.R6.writers", nw, 2)
 
 
 RULES = [r1_layouts, r2_registry, r3_widths, r4_pickle_pairs, r5_gateway, r6_json_keys]
